@@ -237,7 +237,7 @@ prop("C04", [sel("encaps", fn=r"^(TooDeeViewMut|RowsMut|ColMut|<impls>)"), sel("
 prop("C05", [sel("rawbounds"), sel("conv", fn=r"IntoIterator|From<toodee"), sel("shape", rules=["R-HIDE", "R-LEAK", "R-LEAK-DRAIN", "R-DRAINSTEP", "R-DRAINORDER", "R-STALE", "R-RESTORE"]), sel("dup"), sel("zstptr"), sel("guard", fn=r"(::view$|::view_mut$|from_toodee|calculate_view_dimensions)"), sel("cursor", fn=r"^Col( |:|$)|<rule>")],
      "clauses only: ownership discipline of C05 - (R-RAWBOUNDS) every ptr::copy / ptr::write / ptr::read / from_raw_parts on the array's buffer in insert_row, insert_col, remove_col and the drain's destructor reads inside the extent that was initialised when the window opened and writes inside the reserved capacity, for every shape and index: offsets are polynomials relative to as_mut_ptr(), counted loops are summarised by induction-variable analysis (checked at the first and last iteration), and each bound is discharged by substituting the path facts (index <= dim, len == rows*cols) and checking coefficient signs; (R-HIDE) every bitwise move of elements (ptr::copy/read/write) happens while the Vec length is lowered and every normal path restores it, no restore on an unwind path; (R-DUP) the generic layers only permute; (R-ZSTPTR) progress is never decided by comparing element pointers (zero-sized T); (R-LEAK / R-LEAK-DRAIN) a leaked drain leaves a buffer whose visible part contains no moved-out element; (R-DRAINSTEP) the column drain's iterator methods only single-step the embedded cursor and read out each stepped-over element (a jumping override would forget elements), and the embedded Col cursor conforms to the ideal strided cursor (R-CURSOR); (R-GUARD) a window never extends past the array's rows/columns - a view reaching into the Vec's spare capacity would resurrect dropped elements.",
      declined=["the count: that raw moves copy each element to exactly one live slot (placement inside the buffer; DESIGN 2.1) - only that they stay inside it"])
-prop("C06", [sel("shape", rules=["R-DRAINSTEP"]), sel("cursor", fn=r"^Col( |:|$)|<rule>"), sel("flatseq"), sel("rotate"), sel("rawbounds", fn=INSERT + r"|<rule>"), sel("guard", fn=INSERT), sel("zero", fn=INSERT), sel("shape", fn=INSERT), sel("deleg", fn=r"TooDee::push"), sel("zstptr", fn=INSERT), sel("units", fn=INSERT)],
+prop("C06", [sel("shape", rules=["R-DRAINSTEP"]), sel("cursor", fn=r"^Col( |:|$)|<rule>"), sel("flatseq"), sel("rotate"), sel("rawbounds", fn=INSERT + r"|<rule>"), sel("guard", fn=INSERT), sel("zero", fn=INSERT), sel("shape", fn=INSERT), sel("deleg", fn=r"TooDee::push"), sel("zstptr", fn=INSERT), sel("units", fn=INSERT), sel("guard", rules=["R-ARITH"], fn=r"TooDee::reserve")],
      "clauses only: insert_row/insert_col/push_* - (R-RAWBOUNDS) the shift / fill pointer arithmetic stays inside the reserved buffer for every (index, rows, cols), including the back-to-front loop of insert_col; (R-GUARD) index <= the dimension of its own unit before anything else; (R-ZERO) the dimension grows only when data was inserted, an empty line into an empty array stays (0,0); (R-UNWIND) any rejected call or panicking iterator leaves a valid (possibly emptied) array; (R-HIDE) raw moves only in the hidden window; (R-DELEG) push_* pass the dimension as index; (R-ZSTPTR) the fill loop counts elements; the crate's own iterators that are natural item sources when a line is moved between arrays - the column drain (R-DRAINSTEP, R-CURSOR Col) and cells() (R-FLATSEQ) - yield the sequence they denote, from either end.",
      declined=["placement of the new line and preservation of the other cells (pointer arithmetic of the shift loops, DESIGN 2.1)"])
 prop("C07", [sel("rotate"), sel("rawbounds", fn=REMOVE + r"|<rule>"), sel("drainlit"), sel("guard", fn=REMOVE), sel("deleg", fn=r"TooDee::pop"), sel("zero", fn=REMOVE), sel("shape", fn=REMOVE), sel("units", fn=REMOVE), sel("encaps", fn=r"^DrainCol")] + L_COLCUR("Col")[:3],
@@ -251,7 +251,7 @@ prop("C09", L_COLCUR() + [sel("guard", rules=["R-ARITH"], fn=COLCUR)] + L_VIEWS(
 prop("C10", [sel("nonzero", fn=r"^FlattenExact|<rule>")] + L_CELLS() + L_VIEWS() + L_INV() + [sel("zero", fn=CTORS), sel_dyn(A_CELLS)],
      "Cell iterators: (R-FLATSEQ) next, next_back, nth, nth_back of FlattenExact are evaluated from the four entry configurations (partial front row / partial back row present or not, symbolic remaining lengths, symbolic n) with the inner iterators modelled by their C08 contract as intervals of one flattened index space; on every path the returned element must be element 0 / n (from the respective end) and the merged remaining intervals must be exactly the ideal remaining sequence - since the ideal is stated on the denotation, per-function conformance covers every interleaving; (R-FLAT f2) front-direction methods of FlattenExact only advance inner iterators from the front, back-direction methods only from the back, fold/rfold chain front row, remaining rows, back row and fold in the matching direction; unsafe code is forbidden in the adaptor; (R-INTOITER) the five IntoIterator impls on references resolve to cells()/cells_mut(), which are FlattenExact::new(rows()/rows_mut()) starting with both partial rows None; last() is next_back(); size_hint is num_cols*iter.len() plus the partial rows; fold/rfold chain frontiter, iter, backiter; the inner row cursors conform to the ideal strided cursor (R-CURSOR, C08) and are started by rows()/rows_mut() as C08 requires; window constructors and the shape invariant as in C08.",
      declined=["third-party TooDeeIterator implementations honouring their contract"])
-prop("C11", [sel("shape", rules=["R-UNWIND", "R-HIDE", "R-RESTORE", "R-DRAINORDER"]), sel("zero", fn=r"^(TooDee::(insert|remove|clear|swap_dim)|DrainCol|DropGuard)"), sel("sortshape", desc=r"s5")],
+prop("C11", [sel("shape", rules=["R-UNWIND", "R-HIDE", "R-RESTORE", "R-DRAINORDER"]), sel("zero", fn=r"^(TooDee::(insert|remove|clear|swap_dim)|DrainCol|DropGuard)"), sel("sortshape", desc=r"s5"), sel("guard", rules=["R-ARITH"], fn=r"TooDee::reserve")],
      "Panic safety is an exit-point property: (R-UNWIND) at every may-unwind terminator (caller code recognised structurally: trait methods on type parameters, closure parameters, drops of types mentioning a type parameter; allocation failure in reserve; assertion failures) of every shape writer, with a shape write still pending, the triple (len, rows, cols) - followed through cleanup blocks and restorer drops - is untouched, all-zero or in product form; (R-HIDE) bitwise duplicates only exist beyond the lowered length and no unwind path restores it; (R-SORTSHAPE s5) comparators/key functions run only inside the side sort, which dominates all array writes.",
      declined=["'every reachable cell holds a live element' beyond the three consistent forms"])
 prop("C12", [sel("witness", fn=r"^(W6|W7|W9|<witness>)", keep_rule_floor=False), sel("shape", rules=["R-LEAK", "R-LEAK-DRAIN"]), sel("zero", fn=r"^TooDee::remove"), sel("encaps", fn=r"^(DrainCol|<api>)"), sel("shape", rules=["R-HIDE", "R-DRAINSTEP", "R-RESTORE"], fn=r"(DrainCol|DropGuard|remove_)")],
